@@ -242,3 +242,93 @@ pub fn run_rssi_inst(idx: u64, _rng: &mut Prng, col: &mut Collector) {
         }
     }
 }
+
+// ---- SX127x status after a channel hop --------------------------------------------------------------
+
+const HOP_FREQS: [u32; 4] = [433_175_000, 470_300_000, 868_100_000, 915_000_000];
+
+fn configure_127<RK: RadioKind>(rk: &mut RK, freq: u32, full: bool) -> Result<(), String> {
+    let r = trap(|| -> Result<(), lora_phy::mod_params::RadioError> {
+        if full {
+            let mp = rk.create_modulation_params(SFS[2], BWS[7], CRS[0], freq)?;
+            block_on(rk.set_modulation_params(&mp))?;
+            let pp = rk.create_packet_params(8, false, 64, true, true, &mp)?;
+            block_on(rk.set_packet_params(&pp))?;
+        }
+        block_on(rk.set_channel(freq))
+    });
+    match r {
+        Ok(Ok(())) => Ok(()),
+        Ok(Err(e)) => Err(format!("{:?}", e)),
+        Err(t) => Err(format!("panic: {}", t.msg)),
+    }
+}
+
+fn after_hop<RK: RadioKind>(name: &str, offset_of: impl Fn(u32) -> i32, rk: &mut RK, bus: &Bus, from: u32, to: u32, full_hop: bool, col: &mut Collector) {
+    // reception configured on `from` (modulation, packet parameters, channel), then the
+    // receiver is moved to `to`: either a bare channel switch (LoRa::rx_switch_channel) or a
+    // complete reconfiguration; status conversions must follow the channel now programmed
+    if let Err(e) = configure_127(rk, from, true) {
+        col.event("hop_setup_failed");
+        col.notes.insert("hop_setup_error".into(), json!(e));
+        return;
+    }
+    if let Err(e) = configure_127(rk, to, full_hop) {
+        col.event("hop_setup_failed");
+        col.notes.insert("hop_setup_error".into(), json!(e));
+        return;
+    }
+    let offset = offset_of(to);
+    let hop = if full_hop { "reconfigured" } else { "channel-switch" };
+    let band = |f: u32| if f > 525_000_000 { "hf" } else { "lf" };
+    for raw in (0..=255u8).step_by(5) {
+        {
+            let mut c = bus.chip();
+            c.regs[SX127X_REG_RSSI as usize] = raw;
+            c.regs[SX127X_REG_PKT_RSSI as usize] = raw;
+            c.regs[SX127X_REG_PKT_SNR as usize] = 20;
+        }
+        col.eval(&format!("{}|after-hop|{}->{}|{}", name, band(from), band(to), hop));
+        col.event("status_after_hop");
+        match trap(|| block_on(rk.get_rssi())) {
+            Err(t) => viol(col, &format!("C17|rssi-inst|panic|{}", name), "get_rssi panicked on a raw value", || json!({"chip": name, "raw": raw, "panic": t.msg, "loc": t.loc})),
+            Ok(Err(_)) => col.event("rssi_inst_err"),
+            Ok(Ok(v)) => {
+                if (v as i32 - (offset + raw as i32)).abs() > 1 {
+                    viol(col, &format!("C17|rssi-inst|off-after-hop|{}|{}->{}|{}", name, band(from), band(to), hop), "after moving the receiver to another channel the instantaneous RSSI is converted with the offset of a band the chip is no longer on", || {
+                        json!({"chip": name, "configured_on": from, "moved_to": to, "hop": hop, "raw": raw, "reported": v, "exact": offset + raw as i32})
+                    });
+                }
+            }
+        }
+        match trap(|| block_on(rk.get_rx_packet_status())) {
+            Err(t) => viol(col, &format!("C17|pktstatus|panic|{}/after-hop", name), "get_rx_packet_status panicked", || json!({"chip": name, "raw": raw, "panic": t.msg, "loc": t.loc})),
+            Ok(Err(_)) => col.event("pktstatus_err_after_hop"),
+            Ok(Ok(ps)) => {
+                let cands = rssi127_candidates(offset, raw, 20);
+                let got = 60 * ps.rssi as i32;
+                if !cands.iter().any(|c| (got - c).abs() <= 60) {
+                    viol(col, &format!("C17|pktstatus|rssi-off-after-hop|{}|{}->{}|{}", name, band(from), band(to), hop), "after moving the receiver to another channel the packet RSSI is converted with the offset of a band the chip is no longer on", || {
+                        json!({"chip": name, "configured_on": from, "moved_to": to, "hop": hop, "rssi_raw": raw, "reported_rssi": ps.rssi, "accepted_dbm": cands.iter().map(|c| *c as f64 / 60.0).collect::<Vec<_>>()})
+                    });
+                }
+            }
+        }
+    }
+}
+
+pub const HOP_CASES: u64 = 2 * 4 * 4 * 2;
+
+pub fn run_after_hop(idx: u64, _rng: &mut Prng, col: &mut Collector) {
+    let chip = idx % 2;
+    let from = HOP_FREQS[((idx / 2) % 4) as usize];
+    let to = HOP_FREQS[((idx / 8) % 4) as usize];
+    let full = (idx / 32) % 2 == 1;
+    if chip == 0 {
+        let (mut rk, bus) = new_sx1276(false);
+        after_hop("sx1276", |f| if f > 525_000_000 { -157 } else { -164 }, &mut rk, &bus, from, to, full, col)
+    } else {
+        let (mut rk, bus) = new_sx1272(false);
+        after_hop("sx1272", |_| -139, &mut rk, &bus, from, to, full, col)
+    }
+}
